@@ -157,3 +157,28 @@ def viewLine (kind ty : String) (rest : List String) : String :=
     | .error e => ubStr e
 
 end Drv
+
+namespace Drv
+/-- `v14 <kind> <T> pat= ext= [str=] obs [idx]`: the C++14 server's mdspan observation (handle offset 5) -/
+def v14Line (kind ty : String) (rest : List String) : String :=
+  match parseTy ty with
+  | none => "bad-op"
+  | some T =>
+    let es := wrapL T (parseList ((getKey rest "ext").getD "-"))
+    let ss := wrapL T (parseList ((getKey rest "str").getD "-"))
+    let m : LayoutI := match kind with
+      | "left" => .left es | "right" => .right es | _ => .stride es ss
+    let arg := match plainToks rest with
+      | [_, a] => some (wrapL T (parseList a))
+      | _ => none
+    let r : M String := do
+      let st ← m.stridesM T
+      let base := s!"sz={mdsSizeM T es} emp={fmtB (mdsEmptyM es)} e={fmtL es} s={fmtL st} rk={es.length},{es.length}"
+      match arg, es.isEmpty with
+      | some ix, _ => do let off ← m.offM T ix; pure (base ++ s!" a={5 + off}")
+      | none, true => do let off ← m.offM T []; pure (base ++ s!" a={5 + off}")
+      | none, false => pure base
+    match r with
+    | .ok s => s
+    | .error e => ubStr e
+end Drv
